@@ -85,6 +85,8 @@ pub struct World {
     pub tcp: Vec<(usize, TcpOutcome)>,
     /// called on every send_to: returns packets to schedule (delay ns, bytes, from)
     pub on_send: Option<Box<dyn FnMut(&[u8], SocketAddr, u64) -> Vec<(u64, Vec<u8>, Option<SocketAddr>)>>>,
+    /// called on every connect of a stream socket: (socket id, peer, now) -> the outcome of the handshake and packets to schedule
+    pub on_connect: Option<Box<dyn FnMut(usize, SocketAddr, u64) -> (TcpOutcome, Vec<(u64, Vec<u8>, Option<SocketAddr>)>)>>,
     /// advance of the virtual clock per send_to
     pub send_cost_ns: u64,
     /// how often the receive socket was waited on / read (one recv_probe call must wait at most once and read at most once)
@@ -227,13 +229,28 @@ impl Socket for SimSocket {
         })
     }
     fn connect(&mut self, address: SocketAddr) -> IoResult<()> {
-        with(|w| {
+        let (res, mut cb) = with(|w| {
             w.ops.push(Op::Connect(self.id, address));
-            match w.take_injected(Call::Connect) {
+            let r = match w.take_injected(Call::Connect) {
                 Some(k) => Err(IoError::Connect(io::Error::from(k), address)),
                 None => Ok(()),
+            };
+            (r, w.on_connect.take())
+        });
+        if res.is_ok() {
+            if let Some(f) = cb.as_mut() {
+                let now = vclock::now();
+                let (outcome, sched) = f(self.id, address, now);
+                with(|w| {
+                    if let Some(e) = w.tcp.iter_mut().find(|(id, _)| *id == self.id) { e.1 = outcome; }
+                    for (d, b, a) in sched {
+                        w.pending.push((now + d, b, a));
+                    }
+                });
             }
-        })
+        }
+        with(|w| w.on_connect = cb);
+        res
     }
     fn send_to(&mut self, buf: &[u8], addr: SocketAddr) -> IoResult<()> {
         let mut cb = with(|w| {
